@@ -18,4 +18,5 @@ def run(repo, res, tier):
     from .. import multidict
     multidict.rule_m2(repo, res)
     effects.rule_estate(repo, res, families=("PVLEncoder",))
+    effects.rule_shared_class_state(repo, res)
     effects.rule_globals(repo, res, modules=("encoder", "__init__", "new"), floor=20)
